@@ -341,11 +341,22 @@ def sub_hist(case):
             tag = hist[-1][0] if hist else 'init'
             for a in model.anomalies:
                 devs.append({'sig': '%s|after_%s' % (a['sig'], tag), 'detail': dict(a['detail'])})
-            live = _observe(w)
+            try:
+                live = _observe(w)
+            except Exception as e:
+                # the wallet can no longer report its balance / outputs / transactions after this history
+                devs.append({'sig': 'wallet_cannot_be_observed|%s|after_%s' % (type(e).__name__, tag),
+                             'detail': {'exc': repr(e)[:300], 'hist': hist, 'cfg': cfg}})
+                return {'devs': devs, 'ret': {'state': ['broken', tag, len(hist)], 'enabled': []}, 'out': 'raises'}
             devs += _invariants('live', live, model, w, tag)
             w2 = wh.reopen(path)
             try:
-                re = _observe(w2)
+                try:
+                    re = _observe(w2)
+                except Exception as e:
+                    devs.append({'sig': 'reopened_wallet_cannot_be_observed|%s|after_%s' % (type(e).__name__, tag),
+                                 'detail': {'exc': repr(e)[:300], 'hist': hist, 'cfg': cfg}})
+                    return {'devs': devs, 'ret': {'state': ['broken', tag, len(hist)], 'enabled': []}, 'out': 'raises'}
                 devs += _invariants('reopened', re, model, w2, tag)
                 for f in ('balance', 'utxos', 'key_balances', 'walletkey_balances', 'txids'):
                     if live[f] != re[f]:
